@@ -657,6 +657,10 @@ def obligations(tier):
         o = c08.TimeRoundTrip(2004, 2, et)
         o.name = 'writer-header-span[uamiv,' + o.name.split('[', 1)[1]
         obs.append(o)
+    # header dates when the end of a step lies days after its begin
+    o = c08.TimeRoundTrip(2003, 2, False, step_h=72)
+    o.name = 'writer-header-span[uamiv,' + o.name.split('[', 1)[1]
+    obs.append(o)
     o = c08.LatBndTimeRoundTrip(2004, 2)
     o.name = 'writer-walk[lateral_boundary,2004,T=2]'
     obs.append(o)
